@@ -28,7 +28,7 @@ def check_noforce(ctx, rng):
         # (a symlink to a missing cache object dangles and the follow-up stat raises: outside this property, see C09's known finding)
         missing = [md5hex(c) for c in target.values() if rng.random() < 0.08 and link != "symlink" and existing != "symlink"]
         t2 = sc.put_tree(target, skip=missing)
-        edits = sc.user_edits()
+        edits = sc.user_edits(kinds=("replace_uncached", "replace_cached", "add", "delete", "dangling"))
         gc_old = rng.random() < 0.25 and link != "symlink" and existing != "symlink"  # a symlinked workspace file *is* the cache object
         if gc_old:
             # the old version leaves the cache while the workspace still holds it (e.g. gc)
